@@ -23,8 +23,9 @@ META["text"] = (
     "|h||w| <= pi with no mjMINVAL guard firing (inherited from C24's sub/integrate lemma). "
     "(Jacobian) C07_jac_column_algebra: the column that mj_comPos + mj_jac write for a hinge is xaxis x (point - xanchor) and xaxis for the rotation part, for a slide xaxis and 0, for ANY subtree_com used consistently (the com cancels); "
     "C07_jac_column_partial: for a hinge or slide joint anywhere in a serial chain (any number of further hinge/slide/ball joints, body ends and child-body offsets between the joint and the point, unit quaternions/axes) "
-    "that column is the derivative (Coquelicot is_derive, componentwise) of the world position of a body-fixed point with respect to that joint's coordinate, and C07_jacr_column_partial: the rotation column is the angular velocity (d/dq of xmat = [xaxis]x xmat). "
-    "Partial / not proved: the link between a path in a general tree and a serial chain is by construction of the model (bodyStart/jointsLoop/finishBody are the chain steps) but not stated as a theorem; ball/free Jacobian columns, mj_jacDot, mj_jacSubtreeCom, object velocities and constraint rows have no theorem (oracle only). "
+    "that column is the derivative (Coquelicot is_derive, componentwise) of the world position of a body-fixed point with respect to that joint's coordinate, and (same theorem) the rotation column is the angular velocity (d/dq of xmat u = xaxis x xmat u for every u). "
+    "C07_tree_body_is_chain: in ANY tree the frame of every regular body (not free-floating, not mocap, parent not the world) is exactly such a chain segment (child offset, its joints, end of body) applied to the frame of its parent. "
+    "Partial / not proved: the statement about a general tree as a function of one joint coordinate (that the state before the joint and all non-descendants do not depend on it, and the composition of the segments along the ancestor path); ball/free Jacobian columns, mj_jacDot, mj_jacSubtreeCom, object velocities and constraint rows have no theorem (oracle only). "
     "Tie: on every run the model is evaluated at binary64 inside Coq on the tree parameters exported from the compiled mjModel (body_parentid, body_pos, body_quat, mocap pose, jnt_type, jnt_pos, jnt_axis, qpos, qpos0, inertial/geom/site/camera offsets and sameframe codes) "
     "and compared with xpos, xquat, xmat, xanchor, xaxis, xipos, ximat, geom/site/cam frames, mj_jac columns (all dofs, all bodies), mj_integratePos and mj_differentiatePos of the working tree. "
     "Oracle on implementation output: rotation checks (1e-10) for body/inertial/geom/site/camera frames; mj_jac, mj_jacBody, mj_jacBodyCom, mj_jacSubtreeCom, mj_jacGeom, mj_jacSite, mj_jacSparse, mj_jacPointAxis (and camera points) against central finite differences over mj_integratePos perturbations; "
